@@ -202,6 +202,9 @@ def run_property(prop, tier, rules, out=print, root=None, evdir=None, selfval=Tr
     try:
         repo = Repo(root)
         ctx = Ctx(repo, prop, tier)
+        from . import orderdom
+
+        orderdom.PACKAGE = repo
         ran = []
         for rid, tag, fn, title in rules:
             if tag == "P2" and tier != "thorough":
